@@ -2,6 +2,7 @@
 import ElfioVerif.Driver.Common
 import ElfioVerif.Model.Load
 import ElfioVerif.Model.Validate
+import ElfioVerif.Model.Writer
 namespace ElfioVerif.Drv.Load
 open ElfioVerif ElfioVerif.Drv
 
@@ -41,6 +42,115 @@ def secLine (b : SecBuf) (withData : Bool) : String :=
 def segLine (g : Seg) (withData : Bool) : String :=
   s!"idx={g.index % 65536} type={g.stype.toNat} flags={g.flags.toNat} off={g.offset.toNat} vaddr={g.vaddr.toNat} paddr={g.paddr.toNat} filesz={g.filesz.toNat} memsz={g.memsz.toNat} align={g.align.toNat} members={joinNats (g.secs.map (·.toNat))} data=" ++
     (if withData then dataStr g.data g.filesz.toNat else "skipped")
+
+def clsOf (t : List String) : Cls := if kvn t "cls" 64 == 32 then .c32 else .c64
+def encOf (t : List String) : Enc := if kv? t "enc" == some "msb" then .msb else .lsb
+
+def secSetField (c : Cls) (b : SecBuf) (f : String) (v : Nat) : SecBuf :=
+  let v64 : BitVec 64 := BitVec.ofNat 64 v
+  match f with
+  | "type" => { b with stype := BitVec.ofNat 32 v }
+  | "flags" => { b with flags := truncA c v64 }
+  | "info" => { b with info := BitVec.ofNat 32 v }
+  | "link" => { b with link := BitVec.ofNat 32 v }
+  | "align" => { b with addrAlign := truncA c v64 }
+  | "entsize" => { b with entSize := truncA c v64 }
+  | "addr" => { b with addr := truncA c v64, addrSet := true }
+  | "size" => b.setSize v64
+  | "nameoff" => { b with nameOff := BitVec.ofNat 32 v }
+  | _ => b
+
+/-- the object and the bytes of its last save -/
+structure DObj where
+  o : Obj
+  saved : Bytes := []
+
+def wstep (d : DObj) (t : List String) : Option (M (DObj × String)) :=
+  let o := d.o
+  match t with
+  | "create" :: rest => some do
+    let o ← create o (clsOf rest) (encOf rest)
+    pure ({ d with o := o }, "ok")
+  | ["hset", f, v] =>
+    let v := parseNat v
+    let c := o.cls; let e := o.enc
+    let h := o.hdr.getD []
+    let h := match f with
+      | "os_abi" => Hdr.set_ident h Gen.EI_OSABI (v % 256)
+      | "abi_version" => Hdr.set_ident h Gen.EI_ABIVERSION (v % 256)
+      | "type" => Hdr.set_type c e h v
+      | "machine" => Hdr.set_machine c e h v
+      | "flags" => Hdr.set_flags c e h v
+      | "entry" => Hdr.set_entry c e h v
+      | _ => h
+    some (pure ({ d with o := { o with hdr := o.hdr.map fun _ => h } }, "ok"))
+  | "addsec" :: rest => some do
+    let o ← sectionsAdd o (bytesOfHex ((kv? rest "name").getD "-"))
+    let i := o.secs.length - 1
+    match o.secs[i]? with
+    | none => pure ({ d with o := o }, "null")
+    | some b =>
+      let c := o.cls
+      let b := secSetField c b "type" (kvn rest "type" 1)
+      let b := secSetField c b "flags" (kvn rest "flags" 0)
+      let b := secSetField c b "align" (kvn rest "align" 0)
+      let b := secSetField c b "entsize" (kvn rest "entsize" 0)
+      let b := secSetField c b "link" (kvn rest "link" 0)
+      let b := secSetField c b "info" (kvn rest "info" 0)
+      let b := match kv? rest "addr" with | some a => secSetField c b "addr" (parseNat a) | none => b
+      let b ← match kv? rest "data" with
+        | some h => let bs := bytesOfHex h; b.setData (some bs) (BitVec.ofNat 64 bs.length)
+        | none => pure b
+      let b := match kv? rest "size" with | some a => secSetField c b "size" (parseNat a) | none => b
+      pure ({ d with o := { o with secs := o.secs.set i b } }, s!"idx={b.index}")
+  | ["secset", i, f, v] =>
+    let i := parseNat i
+    match o.secs[i]? with
+    | none => some (pure (d, "null"))
+    | some b => some (pure ({ d with o := { o with secs := o.secs.set i (secSetField o.cls b f (parseNat v)) } }, "ok"))
+  | "secedit" :: i :: kind :: rest =>
+    let i := parseNat i
+    match o.secs[i]? with
+    | none => some (pure (d, "null"))
+    | some b => some do
+      let b ← match kind, rest with
+        | "set", [h] => let bs := bytesOfHex h; b.setData (some bs) (BitVec.ofNat 64 bs.length)
+        | "app", [h] => b.appendData (bytesOfHex h)
+        | "ins", [p, h] => b.insertData (BitVec.ofNat 64 (parseNat p)) (bytesOfHex h)
+        | _, _ => pure b
+      pure ({ d with o := { o with secs := o.secs.set i b } }, "ok")
+  | "addseg" :: rest =>
+    let o := segmentsAdd o
+    let j := o.segs.length - 1
+    match o.segs[j]? with
+    | none => some (pure (d, "null"))
+    | some g =>
+      let c := o.cls
+      let g := { g with stype := BitVec.ofNat 32 (kvn rest "type" 1), flags := BitVec.ofNat 32 (kvn rest "flags" 0),
+                        align := truncA c (BitVec.ofNat 64 (kvn rest "align" 0)),
+                        vaddr := truncA c (BitVec.ofNat 64 (kvn rest "vaddr" 0)),
+                        paddr := truncA c (BitVec.ofNat 64 (kvn rest "paddr" 0)) }
+      let g := match kv? rest "memsz" with | some a => { g with memsz := truncA c (BitVec.ofNat 64 (parseNat a)) } | none => g
+      let g := match kv? rest "filesz" with | some a => { g with filesz := truncA c (BitVec.ofNat 64 (parseNat a)) } | none => g
+      some (pure ({ d with o := { o with segs := o.segs.set j g } }, s!"idx={g.index}"))
+  | "segadd" :: j :: i :: rest =>
+    let j := parseNat j; let i := parseNat i
+    match o.segs[j]? with
+    | none => some (pure (d, "null"))
+    | some g =>
+      let al : BitVec 64 := match rest with
+        | [a] => BitVec.ofNat 64 (parseNat a)
+        | _ => match o.secs[i]? with | some s => s.addrAlign | none => 0
+      let g := segAddSection g (BitVec.ofNat 16 i) (truncA o.cls al)
+      some (pure ({ d with o := { o with segs := o.segs.set j g } }, s!"n={g.secs.length % 65536}"))
+  | "save" :: rest => some do
+    let os : OStream := { budget := (kv? rest "budget").map parseNat }
+    let r ← save o os
+    pure ({ o := r.obj, saved := r.os.content }, s!"save={r.ok} bytes={hexOfBytes r.os.content}")
+  | "reload" :: rest => some do
+    let r ← load o { data := d.saved, kind := .str } (kvn rest "lazy" 0 == 1)
+    pure ({ d with o := r.obj }, s!"load={r.ok}")
+  | _ => none
 
 def step (o : Obj) (t : List String) : Obj × String :=
   match t with
@@ -99,18 +209,25 @@ def step (o : Obj) (t : List String) : Obj × String :=
   | _ => (o, "bad-op")
 
 def runCase (ops : List (List String)) : List String :=
-  -- a default-constructed elfio: create(ELFCLASS32, ELFDATA2LSB) (only the header matters here)
-  let o0 : Obj := { cls := .c32, enc := .lsb, hdr := some (Hdr.create .c32 .lsb Gen.ELFDATA2LSB) }
-  let rec go (objs : List Obj) (cur : Nat) (ops : List (List String)) (acc : List String) : List String :=
+  -- a default-constructed elfio: create(ELFCLASS32, ELFDATA2LSB)
+  let o0 : Obj := match create {} .c32 .lsb with | .ok o => o | .error _ => {}
+  let d0 : DObj := { o := o0 }
+  let rec go (objs : List DObj) (cur : Nat) (ops : List (List String)) (acc : List String) : List String :=
     match ops with
     | [] => acc.reverse
     | ["obj", k] :: rest =>
       let k := parseNat k
-      let objs := if objs.length ≤ k then objs ++ List.replicate (k + 1 - objs.length) o0 else objs
+      let objs := if objs.length ≤ k then objs ++ List.replicate (k + 1 - objs.length) d0 else objs
       go objs k rest ("ok" :: acc)
     | t :: rest =>
-      let (o', out) := step (objs.getD cur o0) t
-      if out.startsWith "FAULT" then (out :: acc).reverse else go (objs.set cur o') cur rest (out :: acc)
-  go [o0] 0 ops []
+      let d := objs.getD cur d0
+      match wstep d t with
+      | some (.ok (d', out)) => go (objs.set cur d') cur rest (out :: acc)
+      | some (.error f) => (f.render :: acc).reverse
+      | none =>
+        let (o', out) := step d.o t
+        if out.startsWith "FAULT" then (out :: acc).reverse
+        else go (objs.set cur { d with o := o' }) cur rest (out :: acc)
+  go [d0] 0 ops []
 
 end ElfioVerif.Drv.Load
